@@ -42,8 +42,6 @@ PARTIAL = [
     "(C04_binop_counterexample; D39)",
     "C04_passthrough_table_partial: Categorize, Corr, Cov, Mode reach plain_column_projection although they are not "
     "column-local (D40, D41, and D35 for Mode); groupby cov/corr under groupby_projection likewise (D42, search only)",
-    "C04_rolling_wf_partial covers the grouped rolling only; the ungrouped rule does not re-apply the parent "
-    "(C04_rolling_counterexample; D43)",
     "the collapse of the child to a Series is sound only for operators that act on a Series as on the one-column frame; "
     "C04_widening is proven per rule (the child projection does not depend on unrequested input columns) and for sources; "
     "the whole-plan statement is covered by the end-to-end widened-vs-original search only",
